@@ -195,3 +195,21 @@ def touch():
 if __name__ == '__main__':
     for v in sys.argv[1:] or ['plain', 'fs']:
         print(get(v))
+
+
+def harness(name, hsrcs, reposrcs, cflags=('-O2', '-g', '-w'), libs=('-lm',), cc='gcc'):
+    """Build /verif/harness/<hsrcs> linked with repository sources <reposrcs> (compiled fresh)."""
+    d = os.path.join(root(), 'harness')
+    exe = os.path.join(d, name)
+    srcs = [os.path.join(HARNESS, s) for s in hsrcs]
+    newest = max(os.path.getmtime(s) for s in srcs)
+    if os.path.exists(exe) and os.path.getmtime(exe) >= newest:
+        return exe
+    with _lock('h-' + name):
+        if os.path.exists(exe) and os.path.getmtime(exe) >= newest:
+            return exe
+        os.makedirs(d, exist_ok=True)
+        sd = srcdir()
+        run([cc] + list(cflags) + ['-I', sd, '-o', exe + '.tmp'] + srcs + [os.path.join(sd, s) for s in reposrcs] + list(libs))
+        os.rename(exe + '.tmp', exe)
+    return exe
